@@ -4,7 +4,7 @@ from __future__ import annotations
 
 from .. import smallworld, gen, probe, spec
 from ..probe import violation
-from .common import change_delimiter_mid_life, scale_leg, call, grow_while_asking, use_as_input_of_derivations
+from .common import growth_sweep, long_lived, change_delimiter_mid_life, scale_leg, call, grow_while_asking, use_as_input_of_derivations
 
 PROP = "C07"
 LEVEL = "exploration"
@@ -89,6 +89,8 @@ def run_case(ctx, g, rng):
                 relate(c_, q, d_, w_)
         probe.note_key(f"curie-small-world:chunk{g % 40}", True)
     scale_leg(ctx, rng, rng.choice([":", ":", "/", "::"]), modes=False, g=g)
+    growth_sweep(ctx, rng, rng.choice([":", ":", "/"]), g)
+    long_lived(ctx, rng, rng.choice([":", "/"]), g)
     if g % 3 == 0:
         d = ":"
         recs = [spec.Rec(p, u, tuple(ps), tuple(us), None) for p, u, ps, us in rng.choice(AMBIG)]
